@@ -193,10 +193,14 @@ def run(F, R, tier):
         f = F.fn(nm)
         lam = [n for n in walk(f["body"]) if n.get("k") == "LambdaExpr"]
         got = {}
-        for L in lam:
-            g = F.functions.get(L.get("mg"))
-            if g is None or "writer" not in (g["ret"] or "").lower() and "Config_options" not in (g["ret"] or ""):
-                pass
+        # the selection may live in a lambda of the setup function or in a file-local function it (or its lambdas) calls
+        cand = [F.functions.get(L.get("mg")) for L in lam]
+        for src_ in [f] + [c_ for c_ in cand if c_ is not None]:
+            for x in walk(src_["body"]):
+                if is_call(x) and x.get("mg") in F.functions and F.functions[x["mg"]].get("file") == f["file"] and \
+                        F.functions[x["mg"]] not in cand and F.functions[x["mg"]] is not f:
+                    cand.append(F.functions[x["mg"]])
+        for g in cand:
             if g is None:
                 continue
             sws = [n for n in walk(g["body"]) if n.get("k") == "SwitchStmt"]
